@@ -45,7 +45,7 @@ func (c18) Runs(tier string) int {
 func (c18) New() interface{} { return &c18Case{} }
 func (c18) CrashProne() bool { return true }
 func (c18) Rule() string {
-	return "k in 1..4 BAM inputs (some empty) built by the independent encoders, each sorted in the common declared order (coordinate = order of the merged reference list, computed by a small model and confirmed against Merger.Header()); headers with equal / disjoint / overlapping reference lists and lists whose name order differs from header order; all four sort orders plus a custom less; mates on other references; each input read through its own bam.Reader (rd 1..3) on its own simulated file with short reads; 1 in 4 runs makes one input fail at a drawn underlying read. Oracles: multiset equality by unique names, sortedness under the declared order, per-input order preserved, io.EOF only after all inputs ended cleanly (a fault must surface as a non-EOF error), Ref and MateRef of every returned record are elements of Merger.Header().Refs() with the source's name. non-trivial: k>=2, >=2 inputs non-empty and records of different inputs interleave in the output (or, with a fault, the fault fired mid-merge); distinct = (case, schedule signature)"
+	return "k in 1..4 BAM inputs (some empty) built by the independent encoders, each sorted in the common declared order (coordinate = order of the merged reference list, computed by a small model and confirmed against Merger.Header()); headers with equal / disjoint / overlapping reference lists and lists whose name order differs from header order, shared reference names described with identical or with differing further @SQ tags (NewMerger may refuse the merge only in the differing case); all four sort orders plus a custom less; mates on other references; each input read through its own bam.Reader (rd 1..3) on its own simulated file with short reads; 1 in 4 runs makes one input fail at a drawn underlying read. Oracles: multiset equality by unique names, sortedness under the declared order, per-input order preserved, io.EOF only after all inputs ended cleanly (a fault must surface as a non-EOF error), Ref and MateRef of every returned record are elements of Merger.Header().Refs() with the source's name. non-trivial: k>=2, >=2 inputs non-empty and records of different inputs interleave in the output (or, with a fault, the fault fired mid-merge); distinct = (case, schedule signature)"
 }
 
 var c18RefPool = []RefSpec{{Name: "chrB", Len: 5000}, {Name: "chrA", Len: 7000}, {Name: "chrD", Len: 900}, {Name: "chrC", Len: 12000}, {Name: "chrE", Len: 300}}
